@@ -91,6 +91,10 @@ def pAddrTok? (t : String) : Option AddrTok :=
 
 def undash (s : String) : String := if s = "-" then "" else s
 
+/-- int32 enum fields (decision, whitelist action): every value outside the valid set is rejected
+by `ValidateBasic` before any state is touched, so negative values are folded onto the invalid `0` -/
+def pEnum? (t : String) : Option Nat := t.toInt?.map (fun i => if i < 0 then 0 else i.toNat)
+
 def pCoin? (t : String) : Option Coin :=
   let cs := t.toList
   let (sign, rest) := match cs with
@@ -129,9 +133,9 @@ def pMsg? : Nat → List String → Option (Msg × List String)
     | "ent.raise" :: p :: amt :: denom :: rest => do
       pure (.entRaise (← pAddrTok? p) (← amt.toInt?) denom, rest)
     | "ent.decide" :: id :: dec :: s :: rest => do
-      pure (.entDecide (← id.toNat?) (← dec.toNat?) (← pAddrTok? s), rest)
+      pure (.entDecide (← id.toNat?) (← pEnum? dec) (← pAddrTok? s), rest)
     | "ent.wl" :: act :: a :: s :: rest => do
-      pure (.entWl (← act.toNat?) (← pAddrTok? a) (← pAddrTok? s), rest)
+      pure (.entWl (← pEnum? act) (← pAddrTok? a) (← pAddrTok? s), rest)
     | "ent.params" :: auth :: denom :: mn :: lim :: signers :: rest => do
       pure (.entParams (← pAddrTok? auth)
         { denom := undash denom, minAccepts := ← mn.toNat?, decisionLimit := ← lim.toNat?, signers := ← pAddrTokList? signers }, rest)
